@@ -48,6 +48,8 @@ pub struct WorkerArgs {
     pub resume_unit: Option<u64>,
     pub resume_idx: u64,
     pub base: String,
+    /// emit a stats checkpoint every N units (0 = property default)
+    pub checkpoint: u64,
 }
 
 fn append_digests(path: &str, set: &mut std::collections::HashSet<u64>) {
@@ -107,8 +109,8 @@ fn worker_body(a: WorkerArgs) {
         progress.set(u, u64::MAX, 0);
         units_done += 1;
         u += a.stride;
-        let every = if a.prop == "C09" || a.prop == "C19" { 1 } else { 4 };
-        if units_done % every == 0 || last_emit.elapsed().as_millis() > 500 || u >= a.to {
+        let every = if a.checkpoint > 0 { a.checkpoint } else if a.prop == "C09" || a.prop == "C19" { 1 } else { 4 };
+        if units_done % every == 0 || (a.checkpoint == 0 && last_emit.elapsed().as_millis() > 500) || u >= a.to {
             emit_stats(&mut judge, &a.base, units_done);
             units_done = 0;
             last_emit = std::time::Instant::now();
